@@ -125,11 +125,18 @@ def specAmbCh (p : Spec.Pos) : Move → String
   | .piece pt s d _ => (match Spec.disamb p pt s d with | .none => "n" | .file => "f" | .rank => "r" | .both => "s")
   | .castle _ => "n"
 
+/-- the non-ASCII part of the Unicode classes `\w`, `\s`, `\d` for the non-ASCII characters the harness ever puts into a text
+(`é`, `ß` are letters; `€`, `♔` are symbols); a text with any OTHER non-ASCII character is answered `*` (not compared) -/
+def drvUni : PgnTags.UniClasses := ⟨fun c => c == 'é' || c == 'ß', fun _ => false, fun _ => false⟩
+def foreignChars (t : Str) : Bool := t.any fun c => c.toNat ≥ 128 && !(c == 'é' || c == 'ß' || c == '€' || c == '♔')
+
 structure Session where
   g : Game
   s : Spec.GState
   /-- is the rule-level protocol state `s` maintained for this session? (sampled: `m0every`) -/
   m0 : Bool := true
+  /-- the metadata map of the game (`GameMetadata`), apart from its `Result` entry which follows `g.result` -/
+  md : PgnTags.Metadata := PgnTags.Metadata.default
 
 def gobs (g : Game) : String :=
   s!"status={gstatusStr g.status} tag={String.ofList g.result} cnt={g.positionCounter g.position} " ++
@@ -369,30 +376,30 @@ def runOp (K : Keys) (committedKeys : String) (lite : Bool) (skipM0 : Bool) (reh
     | some b =>
       let g := Game.ofBoard b
       let s := Spec.init (absPos b)
-      if lite then (some ⟨g, s, false⟩, "skip ## ") else
-      if skipM0 then (some ⟨g, s, false⟩, s!"{gobs g} ## ") else
-      (some ⟨g, s, true⟩, s!"{gobs g} ## {specGobs s}")
+      if lite then (some ⟨g, s, false, PgnTags.Metadata.default⟩, "skip ## ") else
+      if skipM0 then (some ⟨g, s, false, PgnTags.Metadata.default⟩, s!"{gobs g} ## ") else
+      (some ⟨g, s, true, PgnTags.Metadata.default⟩, s!"{gobs g} ## {specGobs s}")
   | "g.act" =>
     match sess, parseAction (arg 1) with
-    | some ⟨g, s, m0⟩, some a =>
+    | some ⟨g, s, m0, md⟩, some a =>
       if lite then
-        (match g.act K a with | .ok g2 => (some ⟨g2, s, false⟩, "skip ## ") | .error _ => (some ⟨g, s, false⟩, "skip ## "))
+        (match g.act K a with | .ok g2 => (some ⟨g2, s, false, md⟩, "skip ## ") | .error _ => (some ⟨g, s, false, md⟩, "skip ## "))
       else
       let (g', r) := match g.act K a with
         | .ok g2 => (g2, "ok")
         | .error .illegalAction => (g, "illegal")
         | .error .gameFinished => (g, "finished")
         | .error _ => (g, "other")
-      if !m0 then (some ⟨g', s, false⟩, s!"r={r} {gobs g'} ## ") else
+      if !m0 then (some ⟨g', s, false, md⟩, s!"r={r} {gobs g'} ## ") else
       let (s', sr) := match Spec.step s (toSpecAction a) with
         | .ok s2 => ({ s2 with later := s2.later.map normPos }, "ok")
         | .error .illegalAction => (s, "illegal")
         | .error .finished => (s, "finished")
-      (some ⟨g', s', true⟩, s!"r={r} {gobs g'} ## r={sr} {specGobs s'}")
+      (some ⟨g', s', true, md⟩, s!"r={r} {gobs g'} ## r={sr} {specGobs s'}")
     | _, _ => (sess, "bad-session ## ")
   | "g.hist" =>
     match sess with
-    | some ⟨g, s, m0⟩ =>
+    | some ⟨g, s, m0, _⟩ =>
       let fl := g.history.props.map fun mp => flag mp.isCapture "c" ++ flag mp.isCheck "k" ++ flag mp.isMate "m"
       if !m0 then (sess, s!"text={hexText g.history.render} lookup=1 flags={commaOr fl} chain=1 ## ") else
       let hist := Spec.history s
@@ -402,10 +409,20 @@ def runOp (K : Keys) (committedKeys : String) (lite : Bool) (skipM0 : Bool) (reh
         | _, _ => "?"
       (sess, s!"text={hexText g.history.render} lookup=1 flags={commaOr fl} chain=1 ## flags={commaOr sfl}")
     | none => (sess, "bad-session ## ")
+  | "g.tag" =>
+    -- `get_metadata_mut().set_value(key, value)` on the session's game
+    match sess, unhexText (arg 1), unhexText (arg 2) with
+    | some ⟨g, s, m0, md⟩, some k, some v =>
+      -- the model keeps the `Result` entry in `Game.result`
+      if k == PgnTags.resultKey then (some ⟨{ g with result := v }, s, m0, md⟩, "r=ok ## ")
+      else (some ⟨g, s, m0, md.set k v⟩, "r=ok ## ")
+    | _, _, _ => (sess, "bad-session ## ")
   | "g.pgn" =>
     match sess with
-    | some ⟨g, _, _⟩ =>
-      let pgn := g.asPgn
+    | some ⟨g, _, _, md0⟩ =>
+      -- the map's `Result` entry follows the game (`set_game_status`), unless the caller overwrote it after the last change
+      let md := md0.set PgnTags.resultKey g.result
+      let pgn := Game.asPgnWith md g
       -- split at the first blank line
       let rec splitTags : Str → Str → Str × Str
         | acc, '\n' :: '\n' :: r => (acc ++ ['\n'], r)
@@ -413,16 +430,17 @@ def runOp (K : Keys) (committedKeys : String) (lite : Bool) (skipM0 : Bool) (reh
         | acc, [] => (acc, [])
       let (tags, rest) := splitTags [] pgn
       let words := (splitOn ' ' (rest.map fun c => if c = '\n' then ' ' else c)).filter (fun w => !w.isEmpty)
-      let rt := match Board.ofFen K startFen with
-        | .error _ => "err"
+      let (rt, rtags) := match Board.ofFen K startFen with
+        | .error _ => ("err", "err")
         | .ok sb =>
-          match Game.ofPgnMoves K (Game.ofBoard sb) rest with
-          | .error _ => "err"
-          | .ok g2 =>
+          match Game.ofPgnFull drvUni K (Game.ofBoard sb) pgn with
+          | .error _ => ("err", "err")
+          | .ok (g2, md2) =>
             let stOrig := match g.status with | .drawOffered _ => GStatus.ongoing | x => x
-            b01 (g2.history.moves == g.history.moves && g2.result == g.result && g2.status == stOrig &&
-                 g2.history.positions.map posobs == g.history.positions.map posobs)
-      (sess, s!"tags={hexText tags} words={hexText (Game.joinWith [' '] words)} rt={rt} ## ")
+            (b01 (g2.history.moves == g.history.moves && g2.result == g.result && g2.status == stOrig &&
+                 g2.history.positions.map posobs == g.history.positions.map posobs),
+             b01 (PgnTags.tagsText md2 == tags))
+      (sess, s!"tags={hexText tags} words={hexText (Game.joinWith [' '] words)} rt={rt} rtags={if foreignChars pgn then "*" else rtags} ## ")
     | none => (sess, "bad-session ## ")
   | "g.frompgn" => (sess,
       -- `Game::from_pgn` on ARBITRARY text: section split, move and result regexes (Model/PgnRegex.lean), replay by SAN lookup
@@ -432,9 +450,11 @@ def runOp (K : Keys) (committedKeys : String) (lite : Bool) (skipM0 : Bool) (reh
         match Board.ofFen K startFen with
         | .error _ => "r=err ## "
         | .ok sb =>
-          match Game.ofPgnRegex K (Game.ofBoard sb) t with
+          match Game.ofPgnFull drvUni K (Game.ofBoard sb) t with
           | .error _ => "r=err ## "
-          | .ok g2 => s!"r=ok st={gstatusStr g2.status} n={g2.history.moves.length} fen={us g2.position.asFen} ## ")
+          | .ok (g2, md2) =>
+            let tg := if foreignChars t then "*" else hexText (PgnTags.tagsText md2)
+            s!"r=ok st={gstatusStr g2.status} n={g2.history.moves.length} fen={us g2.position.asFen} tags={tg} ## ")
   | "rx" => (sess,
       match unhexText (arg 1) with
       | none => "bad-hex ## "
